@@ -9,6 +9,7 @@ import PS.Proofs.Dfta
 import PS.Proofs.DftaUnion
 import PS.Proofs.DftaQuot
 import PS.Proofs.DftaMin
+import PS.Proofs.DftaMinimal
 namespace PS.C07
 open PS DFTA
 
@@ -115,6 +116,38 @@ theorem C07_min_lang_cert (f : List Q → X) (A : DFTA σ Q) (hd : A.Det) (cls0 
   rw [e]
   exact accepts_quotient A hd _ _ (allStates_subset_stateSet A) hc t
 
+/-! ### non-vacuity: cyclic automata over {z/0, s/1, f/2} -/
+namespace Example
+def z : Tree String := .node "z" []
+def s (t : Tree String) : Tree String := .node "s" [t]
+def f (a b : Tree String) : Tree String := .node "f" [a, b]
+/-- odd numbers; state 7 is unreachable, state 2 is an unproductive cycle -/
+def odd : DFTA String Nat :=
+  { rules := [(("z", []), 0), (("s", [0]), 1), (("s", [1]), 0), (("s", [7]), 1), (("f", [0, 0]), 2),
+              (("f", [2, 2]), 2)], finals := [1] }
+/-- numbers divisible by three -/
+def three : DFTA String Nat :=
+  { rules := [(("z", []), 0), (("s", [0]), 1), (("s", [1]), 2), (("s", [2]), 0)], finals := [0] }
+example : odd.Det := by unfold DFTA.Det; decide
+example : three.Det := by unfold DFTA.Det; decide
+example : odd.states = [0, 1, 2] := by decide
+example : (reduce odd).rules = [(("z", []), 0), (("s", [0]), 1), (("s", [1]), 0)] := by decide
+example : (readProduct odd three).accepts (s (s (s z))) = true := by decide
+example : (readProduct odd three).accepts (s z) = false := by decide
+set_option maxRecDepth 8000 in
+example : (readUnion odd three).accepts (s z) = true ∧ (readUnion odd three).accepts (s (s z)) = false := by decide
+example : (mapStates (· + 10) odd).accepts (s z) = true := by decide
+/-- numbers modulo 4, final: 1 and 3 — minimises to the two states of `odd` -/
+def mod4 : DFTA String Nat :=
+  { rules := [(("z", []), 0), (("s", [0]), 1), (("s", [1]), 2), (("s", [2]), 3), (("s", [3]), 0)], finals := [1, 3] }
+example : (minimise mod4).map (fun M => M.rules) =
+    some [(("z", []), [2, 0]), (("s", [[2, 0]]), [3, 1]), (("s", [[3, 1]]), [2, 0])] := by decide
+example : (minimiseState mod4 [0, 2] [1, 3] 6).map
+    (fun st => congruenceCert mod4 (clsTuple st) (stateSet mod4)) = some true := by decide
+-- a non-injective renaming that is not a congruence fails the certificate
+example : congruenceCert mod4 (fun q => q % 3) (stateSet mod4) = false := by decide
+end Example
+
 /-! ### literal for the non-vacuity examples of the `minimise` theorems
   trees over {a/0, b/0, f/2}; a partial table with a binary letter; states 2 and 3 are
   equivalent, 0 and 1 are not (f(0,1) is defined, f(1,1) is not). -/
@@ -123,10 +156,10 @@ def par : DFTA String Nat :=
   { rules := [(("a", []), 0), (("b", []), 1), (("f", [0, 1]), 2), (("f", [1, 0]), 3),
               (("f", [2, 2]), 0), (("f", [2, 3]), 0), (("f", [3, 2]), 0), (("f", [3, 3]), 0)],
     finals := [2, 3] }
-/-- a three-state automaton for the same language -/
-def par3 : DFTA String Nat :=
-  { rules := [(("a", []), 0), (("b", []), 1), (("f", [0, 1]), 2), (("f", [1, 0]), 2),
-              (("f", [2, 2]), 0)], finals := [2] }
+/-- a three-state automaton for the same language: the quotient of `par` by 2 ~ 3 -/
+def par3 : DFTA String Nat := mapStates (fun q => if q = 3 then 2 else q) par
+example : par3.rules = [(("a", []), 0), (("b", []), 1), (("f", [0, 1]), 2), (("f", [1, 0]), 2),
+    (("f", [2, 2]), 0)] ∧ par3.finals = [2, 2] := by decide
 end MinExample
 
 /-- **minimise, the certificate always holds.** The partition the refinement loop ends with
@@ -175,37 +208,59 @@ theorem C07_min_terminates (A : DFTA σ Q) : ∃ M, minimise A = some M :=
 
 example : ∃ M, minimise MinExample.par = some M ∧ numStates M = 3 := ⟨_, rfl, by decide⟩
 
-/-! ### non-vacuity: cyclic automata over {z/0, s/1, f/2} -/
-namespace Example
-def z : Tree String := .node "z" []
-def s (t : Tree String) : Tree String := .node "s" [t]
-def f (a b : Tree String) : Tree String := .node "f" [a, b]
-/-- odd numbers; state 7 is unreachable, state 2 is an unproductive cycle -/
-def odd : DFTA String Nat :=
-  { rules := [(("z", []), 0), (("s", [0]), 1), (("s", [1]), 0), (("s", [7]), 1), (("f", [0, 0]), 2),
-              (("f", [2, 2]), 2)], finals := [1] }
-/-- numbers divisible by three -/
-def three : DFTA String Nat :=
-  { rules := [(("z", []), 0), (("s", [0]), 1), (("s", [1]), 2), (("s", [2]), 0)], finals := [0] }
-example : odd.Det := by unfold DFTA.Det; decide
-example : three.Det := by unfold DFTA.Det; decide
-example : odd.states = [0, 1, 2] := by decide
-example : (reduce odd).rules = [(("z", []), 0), (("s", [0]), 1), (("s", [1]), 0)] := by decide
-example : (readProduct odd three).accepts (s (s (s z))) = true := by decide
-example : (readProduct odd three).accepts (s z) = false := by decide
-set_option maxRecDepth 8000 in
-example : (readUnion odd three).accepts (s z) = true ∧ (readUnion odd three).accepts (s (s z)) = false := by decide
-example : (mapStates (· + 10) odd).accepts (s z) = true := by decide
-/-- numbers modulo 4, final: 1 and 3 — minimises to the two states of `odd` -/
-def mod4 : DFTA String Nat :=
-  { rules := [(("z", []), 0), (("s", [0]), 1), (("s", [1]), 2), (("s", [2]), 3), (("s", [3]), 0)], finals := [1, 3] }
-example : (minimise mod4).map (fun M => M.rules) =
-    some [(("z", []), [2, 0]), (("s", [[2, 0]]), [3, 1]), (("s", [[3, 1]]), [2, 0])] := by decide
-example : (minimiseState mod4 [0, 2] [1, 3] 6).map
-    (fun st => congruenceCert mod4 (clsTuple st) (stateSet mod4)) = some true := by decide
--- a non-injective renaming that is not a congruence fails the certificate
-example : congruenceCert mod4 (fun q => q % 3) (stateSet mod4) = false := by decide
-end Example
+/-- **reduce returns a trim automaton** (`Trim`: every state it mentions is reachable, and every
+    reachable state is productive), i.e. the precondition of the `minimise` theorems. -/
+theorem C07_reduce_trim (A : DFTA σ Q) (hd : A.Det) : Trim (reduce A) := trim_reduce A hd
+
+theorem C07_reduce_allReach (A : DFTA σ Q) (hd : A.Det) : AllReach (reduce A) := (trim_reduce A hd).1
+
+example : Trim (reduce Example.odd) ∧ ¬ AllReach Example.odd := by
+  unfold Trim AllReach; decide
+
+/-- **minimise, minimality** (general form: every class order, injective `mapping`, number of
+    passes).  No deterministic automaton with the same language has fewer states than the
+    result of minimising a trim automaton (`numStates` = `len(dfta.states)`). -/
+theorem C07_min_minimal_core (f : List Q → X) (hf : ∀ a b, f a = f b → a = b) (A : DFTA σ Q)
+    (hd : A.Det) (htrim : Trim A) (cls0 cls1 : List Q) (h01 : InitOK A cls0 cls1) (fuel : Nat)
+    (M : DFTA σ X) (h : minimiseCore f A cls0 cls1 fuel = some M)
+    (B : DFTA σ Q₂) (hb : B.Det) (hl : ∀ t, B.accepts t = A.accepts t) :
+    numStates M ≤ numStates B :=
+  minimiseCore_minimal f hf A hd htrim cls0 cls1 h01 fuel M h B hb hl
+
+/-- **minimise, minimality.** -/
+theorem C07_min_minimal (A : DFTA σ Q) (hd : A.Det) (htrim : Trim A) (M : DFTA σ (List Q))
+    (h : minimise A = some M) (B : DFTA σ Q₂) (hb : B.Det) (hl : ∀ t, B.accepts t = A.accepts t) :
+    numStates M ≤ numStates B :=
+  minimiseCore_minimal id (fun _ _ e => e) A hd htrim _ _ (initOK_filter A) _ M h B hb hl
+
+/-- non-vacuity: `par3` (3 states) has the language of `par` (4 states; it is its quotient by
+    2 ~ 3, certificate by evaluation), `par` is trim, and the theorem bounds the 3 states of
+    `minimise par` by the 3 states of `par3`. -/
+example : ∃ M, minimise MinExample.par = some M ∧ numStates M = 3 ∧ numStates MinExample.par3 = 3 ∧
+    numStates M ≤ numStates MinExample.par3 := by
+  have hd : MinExample.par.Det := by unfold DFTA.Det; decide
+  have hd3 : MinExample.par3.Det := by unfold DFTA.Det; decide
+  have htrim : Trim MinExample.par := by unfold Trim AllReach; decide
+  refine ⟨_, rfl, by decide, by decide, C07_min_minimal _ hd htrim _ rfl _ hd3 ?_⟩
+  intro t
+  exact C07_quotient _ _ hd (by decide) t
+
+/-- **reduce, then minimise** (how the library uses it): the result exists, is deterministic,
+    has the language of the original automaton and the least number of states among all
+    deterministic automata with that language. -/
+theorem C07_min_reduce (A : DFTA σ Q) (hd : A.Det) :
+    ∃ M, minimise (reduce A) = some M ∧ M.Det ∧ (∀ t, M.accepts t = A.accepts t) ∧
+      ∀ (B : DFTA σ Q₂), B.Det → (∀ t, B.accepts t = A.accepts t) → numStates M ≤ numStates B := by
+  obtain ⟨M, hM⟩ := C07_min_terminates (reduce A)
+  have hd' := reduce_det A hd
+  have htrim := trim_reduce A hd
+  refine ⟨M, hM, C07_min_det id (reduce A) _ _ _ M hM, ?_, ?_⟩
+  · intro t
+    rw [C07_min_lang (reduce A) hd' htrim.1 M hM t, accepts_reduce A hd t]
+  · intro B hb hl
+    exact C07_min_minimal (reduce A) hd' htrim M hM B hb (fun t => by rw [hl, accepts_reduce A hd t])
+
+example : ∃ M, minimise (reduce Example.odd) = some M ∧ numStates M = 2 := ⟨_, rfl, by decide⟩
 
 /-- **Finding C07-F1** (repaired by proposed_fixes/C07-F1.diff).  On the two rules `z -> 0`,
     `s(0) -> 0` with no final state the language is empty, yet the old `__remove_unproductive__`
